@@ -150,7 +150,7 @@ theorem gg_mkVariant (us : List Ty) (h : ∀ u ∈ us, GenGood cfg sfh u) : GenG
 
 theorem gg_leaf (t : Ty) (h : match t with
     | .any | .undef | .dflt | .scalar | .scalarData | .numeric | .data | .richData | .str | .bin | .int _ | .float _ _ | .bool _
-    | .tspan _ | .strSz _ | .strVal _ | .pattern _ | .regexp _ | .coll _ | .object _ => True
+    | .tspan _ | .tstamp _ | .strSz _ | .strVal _ | .pattern _ | .regexp _ | .coll _ | .object _ => True
     | _ => False) : GenGood cfg sfh t := by
   cases t <;> simp only [] at h <;> (first | contradiction | simp [GenGood, Ty.WF, Ty.TA])
 
@@ -180,6 +180,7 @@ theorem gg_gen : ∀ (n : Nat) (t : Ty), t.w ≤ n → GenGood cfg sfh t → Gen
     | pattern rs => simp only [generalize, genericType]; exact ⟨gg_leaf cfg sfh _ trivial, gt⟩
     | regexp s => simp only [generalize, genericType]; exact ⟨gg_leaf cfg sfh _ trivial, gt⟩
     | tspan r => simp only [generalize, genericType]; exact ⟨gg_leaf cfg sfh _ trivial, gt⟩
+    | tstamp r => simp only [generalize, genericType]; exact ⟨gg_leaf cfg sfh _ trivial, gt⟩
     | object p => simp only [generalize, genericType]; exact ⟨gg_leaf cfg sfh _ trivial, gt⟩
     | bool b => simp only [generalize, genericType]; exact ⟨gg_leaf cfg sfh _ trivial, gg_leaf cfg sfh _ trivial⟩
     | coll r => simp only [generalize, genericType]; exact ⟨gg_leaf cfg sfh _ trivial, gg_leaf cfg sfh _ trivial⟩
@@ -248,6 +249,7 @@ theorem gg_gen : ∀ (n : Nat) (t : Ty), t.w ≤ n → GenGood cfg sfh t → Gen
 def Ty.GenOKV (t : Ty) : Prop :=
   match t with
   | .int r | .tspan r => r.inI64
+  | .tstamp r => tstampAll.sub r = true
   | .float lo hi => -Fl.inf ≤ lo ∧ hi ≤ Fl.inf
   | .coll r => r.isSize
   | .array e r => r.isSize ∧ Ty.GenOKV e
@@ -323,6 +325,10 @@ theorem gen_asg_var (hl : ∀ s, (cfg.lower s).length = s.length) : ∀ (n : Nat
       unfold Ty.GenOKV at gt
       simp only [generalize, genericType]
       exact ⟨viaR cfg sfh rfl (by unfold asgRecv; exact all_sub_i64 gt), self⟩
+    | tstamp r =>
+      unfold Ty.GenOKV at gt
+      simp only [generalize, genericType]
+      exact ⟨viaR cfg sfh rfl (by unfold asgRecv; exact gt), self⟩
     | object p =>
       simp only [generalize, genericType]
       exact ⟨viaR cfg sfh rfl (by unfold asgRecv; simp), self⟩
